@@ -42,6 +42,50 @@ def apply_scenarios(rng, n):
     return scs
 
 
+def aproto_tie(chk, drv, scs, obs, suite='apply protocol events of real pools vs Mpire.ApplyProto.step'):
+    """the queue / result / settle events of whole apply histories are run through the model's `step`: every event must be
+    accepted, the jobs must be settled as the model says, and after stop_and_join nothing may be in flight"""
+    lines, refs = [], []
+    for sc, o in zip(scs, obs):
+        if o.get('harness_error') or o.get('stuck') or 'aproto' not in o:
+            continue
+        if any((op.get('fail') or {}).get('init') or (op.get('fail') or {}).get('exit') for op in sc['ops']):
+            continue        # a failing hook flags the whole pool: outside this model (History.lean covers it)
+        evs, submits = o['aproto']
+        if any(e.startswith('x:') for e in evs):
+            continue
+        lines.append('aproto n=%d ev=%s' % (sc['pool']['n_jobs'], ','.join(evs) or '-'))
+        refs.append((sc, o, submits))
+    for line, res, (sc, o, submits) in zip(lines, drv.run(lines), refs):
+        kinds = ''.join(sorted({e[0] for e in line.split('ev=')[1].split(',') if e}))
+        chk.count(suite, key=line, nontrivial=line.count('s:') >= 2, sample={'line': line[:300], 'model': res[:200]}, events=kinds,
+                  jobs=min(line.count('s:'), 10))
+        if not res.startswith('ok '):
+            chk.mismatch(suite + ': an event of the implementation is not a step of the model', {'scenario': sc, 'line': line}, 'events', res)
+            continue
+        f = dict(x.split('=', 1) for x in res.split(' ')[1:])
+        model = dict((int(a), b) for a, b in (p.split(':') for p in f['settled'].split(',') if p))
+        # implementation: outcome of every task, by submission order
+        impl = {}
+        k = 0
+        for op, oo in zip(sc['ops'], o['ops']):
+            if op['op'] != 'apply_batch':
+                continue
+            by_idx = {a[0]: a for a in oo.get('apply', [])}
+            for t in op['tasks']:
+                if k < len(submits) and t['idx'] in by_idx:
+                    a = by_idx[t['idx']]
+                    impl[submits[k]] = 'ok' if a[1] == 'ok' else 'timeout' if a[2] == 'TimeoutError' and a[3] else 'died' if a[2] == 'RuntimeError' else \
+                        'unsettled' if a[2] == 'TimeoutError' else 'raised'
+                k += 1
+        diff = {j: (impl[j], model.get(j)) for j in impl if impl[j] != model.get(j, 'unsettled')}
+        if diff:
+            chk.mismatch(suite + ': outcomes differ', {'scenario': sc, 'line': line}, {str(j): v[0] for j, v in diff.items()}, {str(j): v[1] for j, v in diff.items()})
+        joined = [i for i, (op, oo) in enumerate(zip(sc['ops'], o['ops'])) if op['op'] == 'stop_and_join' and oo.get('outcome') == 'ok']
+        if joined and joined[-1] == len(sc['ops']) - 1 and f.get('quiescent') != '1':
+            chk.mismatch(suite + ': something is still in flight after stop_and_join', {'scenario': sc, 'line': line}, 'joined', res)
+
+
 def run(chk):
     drv = Driver()
     rng = chk.rng
@@ -60,10 +104,15 @@ def run(chk):
             if 'ESCAPED' in i or i.count('cb:') > 1:
                 chk.violation('exactly_one_callback', {'line': line}, i, 'one outcome, one callback, no exception from _set', input_class='async_set')
     scs = apply_scenarios(rng, 300 if chk.tier == 'quick' else 5000)
-    run_scenarios(chk, 'apply histories under DetSim', scs, {'C09', 'C03'},
+    for sc in scs:
+        sc['want_aproto'] = True
+        if rng.random() < .4:
+            sc['ops'].append({'op': 'stop_and_join'})
+    obs = run_scenarios(chk, 'apply histories under DetSim', scs, {'C09', 'C03'},
                   nontrivial=lambda sc, o: len(sc['ops'][0]['tasks']) >= 2,
                   dist=lambda sc, o: {'failures': bool((sc['ops'][0].get('fail') or {}).get('at')), 'timeouts': bool(sc['ops'][0].get('task_timeout')),
                                       'join_first': bool(sc['ops'][0].get('join_first')), 'start': sc['pool']['start_method']})
+    aproto_tie(chk, drv, scs, obs)
 
     def search():
         run_scenarios(chk, 'search', apply_scenarios(random.Random(chk.seed * 23 + 7), 1000), {'C09', 'C03'})
